@@ -10,6 +10,13 @@ API (import from a plugin props/cNN.py)
   shrink(case) -> iterable of cases        drop plan items / spawns / instructions, shorten delays
   describe(case, obs) -> [str]             histogram keys (input distribution)
   nontrivial(case, obs) -> bool            at least one same-instant coincidence of >= 3 processed events
+  long_case(rng, kind=None, n=None) -> case  LONG families (kind in LONG_KINDS = streak | chain | longrun): one process yielding 1200/3000
+                                           already processed events in ONE resumption; a ~1500-deep chain of zero-delay hand-overs;
+                                           a run of > 5000 steps.  Compact: a code may contain ["repeat", n, [instr...]] (the block
+                                           written out n times; flatten_code); case keys "long" (family), "fuel" (model fuel),
+                                           "max_steps" (harness abort).  agree_term then emits `agree_long` (trace run-length encoded,
+                                           exact) or, above LITERAL_LIMIT bytes, `agree_digest` (length + rolling hash of the WHOLE
+                                           trace, trace_digest = Kernel/Script.v trace_digest, + the last DIGEST_TAIL entries literally)
   COQ_IMPORTS                              lines for Prop.coq_imports
   (Coq side, Kernel/Script.v: `agree` / `model_run` / `run_plan` use the repaired kernel; `agree_sel false`, `model_run_sel false`,
    `run_plan_sel false` run the kernel as found before the C03 fix: commit -- replace "agree " by "agree_sel false " in agree_term's
@@ -137,7 +144,8 @@ class Harness:
         self.mode = case.get("num", "float")
         t0 = pynum(case["t0"], self.mode)
         self.env = env_factory(t0) if env_factory else Environment(initial_time=t0)
-        self.codes = case["codes"]
+        self.codes = [flatten_code(c) for c in case["codes"]]
+        self.max_steps = int(case.get("max_steps", MAX_STEPS))
         self.trace = []
         self.klog = []
         self.results = []
@@ -194,7 +202,7 @@ class Harness:
 
     def _step(self):
         self.nsteps += 1
-        if self.nsteps > MAX_STEPS:
+        if self.nsteps > self.max_steps:
             raise HarnessAbort("too many steps")
         before = self._queue_ids()
         now_before = self.now()
@@ -665,7 +673,7 @@ def c_item(it):
     if k == "run_ev":
         return f"(PRunEv {c_nat(it[1])})"
     if k == "step":
-        return f"(PStep {c_nat(it[1])})"
+        return f"(PStep {c_bignat(it[1])})"
     raise ValueError(it)
 
 
@@ -747,6 +755,148 @@ def c_pres(p):
     return f"({c_result(r)}, {c_q(now)}, {pk})"
 
 
+def flatten_code(code):
+    """["repeat", n, [instr...]] blocks written out n times (the semantics of a repeated block)"""
+    out = []
+    for i in code:
+        if i[0] == "repeat":
+            out.extend(list(i[2]) * int(i[1]))
+        else:
+            out.append(i)
+    return out
+
+
+def is_long(case):
+    return bool(case.get("long")) or any(i[0] == "repeat" for c in case["codes"] for i in c)
+
+
+def c_bignat(n):
+    n = int(n)
+    return c_nat(n) if n < 1000 else f"(Z.to_nat ({n})%Z)"
+
+
+def c_rcode(code):
+    items = []
+    for i in code:
+        if i[0] == "repeat":
+            items.append(f"RRep {c_bignat(i[1])} {c_code(i[2])}")
+        else:
+            items.append(f"RI {c_instr(i)}")
+    return c_list(items)
+
+
+def c_trace_rle(terms, max_period=12, min_reps=3):
+    """run-length encoding of exactly repeated blocks of printed observations -> list titem"""
+    out, i, n = [], 0, len(terms)
+    while i < n:
+        best = None
+        for p in range(1, max_period + 1):
+            if i + 2 * p > n or terms[i:i + p] != terms[i + p:i + 2 * p]:
+                continue
+            r = 2
+            while i + (r + 1) * p <= n and terms[i + r * p:i + (r + 1) * p] == terms[i:i + p]:
+                r += 1
+            if r >= min_reps and (best is None or r * p > best[0] * best[1]):
+                best = (r, p)
+        if best:
+            r, p = best
+            out.append(f"TRep {c_bignat(r)} {c_list(terms[i:i + p])}")
+            i += r * p
+        else:
+            out.append(f"TO ({terms[i]})")
+            i += 1
+    return c_list(out)
+
+
+HP = (1 << 61) - 1
+HB = 1000003
+
+
+def _hmix(h, x):
+    return (h * HB + x + 1) % HP
+
+
+def _enc_q(sq, h):
+    f = Fraction(sq)
+    return _hmix(_hmix(h, f.numerator), f.denominator)
+
+
+def _enc_cls(c, h):
+    if isinstance(c, str):
+        return _hmix(h, {"Interrupt": 1, "Runtime": 2, "Value": 3, "Attribute": 4, "Type": 5, "Assert": 6}[c])
+    if c[0] == "User":
+        return _hmix(_hmix(h, 7), int(c[1]))
+    raise Unprintable(str(c))
+
+
+def _enc_val(v, h):
+    k = v[0]
+    if k == "none":
+        return _hmix(h, 1)
+    if k == "int":
+        return _hmix(_hmix(h, 2), int(v[1]))
+    if k == "num":
+        return _enc_q(v[1], _hmix(h, 3))
+    if k == "ev":
+        if v[1] < 0:
+            raise Unprintable("unknown event")
+        return _hmix(_hmix(h, 4), v[1])
+    if k == "cond":
+        h = _hmix(h, 5)
+        for e, x in v[1]:
+            h = _enc_val(x, _hmix(h, e))
+        return _hmix(h, 0)
+    if k == "list":
+        h = _hmix(h, 6)
+        for x in v[1]:
+            h = _enc_val(x, h)
+        return _hmix(h, 0)
+    if k == "exn":
+        h = _enc_cls(v[1], _hmix(h, 7))
+        for x in v[2]:
+            h = _enc_val(x, h)
+        return _hmix(h, 0)
+    raise ValueError(v)
+
+
+def _enc_obs(t, h):
+    k = t[0]
+    if k == "step":
+        if t[1] < 0:
+            raise Unprintable("unknown event")
+        return _enc_q(t[2], _hmix(_hmix(h, 1), t[1]))
+    if k == "probe":
+        h = _enc_q(t[3], _hmix(_hmix(_hmix(h, 2), t[1]), t[2]))
+        o = t[4]
+        if o is None:
+            return _hmix(h, 0)
+        if o[0] == "ok":
+            return _enc_val(o[1], _hmix(h, 1))
+        return _enc_val(["exn", o[1][0], o[1][1]], _hmix(h, 2))
+    if k == "log":
+        h = _enc_q(t[2], _hmix(_hmix(h, 3), 0 if t[1] is None else t[1] + 1))
+        return _enc_val(t[3], h)
+    raise ValueError(t)
+
+
+def trace_digest(trace):
+    """mirror of Kernel/Script.v trace_digest"""
+    h = 7
+    for t in trace:
+        h = _enc_obs(t, h)
+    return h
+
+
+DIGEST_TAIL = 40
+LITERAL_LIMIT = 40000       # bytes of (run-length encoded) literal trace above which the digest form is used
+
+
+def long_args(case):
+    fuel = int(case.get("fuel", 2000))
+    return (f"{c_bignat(fuel)} {c_q(case['t0'])} {c_list([c_rcode(c) for c in case['codes']])} "
+            f"{c_list([c_item(i) for i in case['plan']])}")
+
+
 def case_args(case):
     return (f"{c_q(case['t0'])} {c_list([c_code(c) for c in case['codes']])} "
             f"{c_list([c_item(i) for i in case['plan']])}")
@@ -757,14 +907,36 @@ def agree_term(case, obs):
     if obs.get("aborted"):
         return "false (* harness aborted: %s *)" % obs["aborted"]
     try:
-        tr = c_list([c_obs(t) for t in obs["trace"]])
+        terms = [c_obs(t) for t in obs["trace"]]
         rs = c_list([c_pres(p) for p in obs["results"]])
     except (Unprintable, ValueError) as e:
         return "false (* observation outside the model: %s *)" % str(e).replace("*)", "* )").replace("(*", "( *")[:200]
-    return f"agree {case_args(case)}\n  {tr}\n  {rs}"
+    if is_long(case):
+        rle = c_trace_rle(terms)
+        if len(rle) <= LITERAL_LIMIT:
+            return f"agree_long {long_args(case)}\n  {rle}\n  {rs}"
+        try:
+            dg = trace_digest(obs["trace"])
+        except (Unprintable, ValueError) as e:
+            return "false (* observation outside the model: %s *)" % str(e)[:200]
+        tail = c_list(terms[-DIGEST_TAIL:])
+        return f"agree_digest {long_args(case)} {c_bignat(len(terms))} {c_z(dg)}\n  {tail}\n  {rs}"
+    return f"agree {case_args(case)}\n  {c_list(terms)}\n  {rs}"
 
 
 def model_term(case, obs=None):
+    if is_long(case):
+        if obs is not None and not obs.get("aborted"):
+            try:
+                terms = [c_obs(t) for t in obs["trace"]]
+                rs = c_list([c_pres(p) for p in obs["results"]])
+                rle = c_trace_rle(terms)
+                if len(rle) <= LITERAL_LIMIT:
+                    return f"diagnose_long {long_args(case)} {rle} {rs}"
+            except (Unprintable, ValueError):
+                pass
+            return f"diagnose_digest {long_args(case)} {DIGEST_TAIL}%nat"
+        return f"(let '(tr, rs) := model_run_long {long_args(case)} in (List.length tr, firstn 40 tr, rs))"
     if obs is not None and not obs.get("aborted"):
         try:
             tr = c_list([c_obs(t) for t in obs["trace"]])
@@ -817,6 +989,10 @@ def nontrivial(case, obs):
 
 def walk_instrs(case):
     def rec(i):
+        if i[0] == "repeat":
+            for j in i[2]:
+                yield from rec(j)
+            return
         yield i
         if i[0] in ("ifexn", "ifok"):
             yield from rec(i[2])
@@ -1249,6 +1425,80 @@ class _Gen:
         return items
 
 
+# ------------------------------------------------------------------------------------------------
+# long families (compact cases: ["repeat", n, [instr...]] blocks in codes; compared with agree_long)
+
+LONG_KINDS = ("streak", "chain", "longrun")
+
+
+def long_case(rng, kind=None, n=None):
+    """LONG-STREAK families.
+      streak   one collector process yields, in ONE resumption, n already processed events back to back (a cycle over a processed
+               timeout with a value, a succeeded event, a failed event that an earlier waiter defused, a finished child that
+               returned, a finished child that raised), catching the failures, then goes on normally; n in {1200, 3000}
+      chain    zero-delay hand-overs: a process woken by its event creates the next event, starts the next process and succeeds
+               that event, and so on at one instant; the chain is cut by a step budget (depth about 1500)
+      longrun  two processes ticking with small delays for more than 5000 steps
+    """
+    kind = kind or rng.choice(LONG_KINDS)
+    t0 = rng.choice(["0", "0", "1", "1/2"])
+    if kind == "streak":
+        n = n or rng.choice([1200, 3000])
+        cycle_all = [
+            ["yield", 11, ["reg", ["G", 2]], ["L", 5], "catch"],     # processed timeout carrying a value
+            ["yield", 12, ["reg", ["G", 0]], ["L", 5], "catch"],     # succeeded shared event
+            ["yield", 13, ["reg", ["G", 1]], ["L", 6], "catch"],     # failed shared event (defused by the catcher)
+            ["yield", 14, ["reg", ["G", 3]], ["L", 5], "catch"],     # finished child (returned)
+            ["yield", 15, ["reg", ["G", 4]], ["L", 6], "catch"],     # finished child (raised; joined by the catcher)
+        ]
+        cycle = list(cycle_all)
+        rng.shuffle(cycle)
+        if rng.random() < 0.3:
+            cycle = cycle[:rng.randint(2, 4)]
+        reps = max(1, n // len(cycle))
+        v = rng.choice([0, 5, 7])
+        collector = [["timeout", ["L", 1], "2", ["none"]], ["yield", 1, ["reg", ["L", 1]], ["L", 2], "catch"],
+                     ["repeat", reps, cycle],
+                     ["log", ["reg", ["L", 5]]], ["log", ["reg", ["L", 6]]],
+                     ["timeout", ["L", 3], rng.choice(["0", "1", "1/2"]), ["int", 3]],
+                     ["yield", 2, ["reg", ["L", 3]], ["L", 4], "catch"], ["return", ["int", rng.randint(0, 9)]]]
+        child_ret = [["timeout", ["L", 1], "1", ["none"]], ["yield", 3, ["reg", ["L", 1]], ["L", 2], "catch"], ["return", ["int", v]]]
+        child_raise = [["timeout", ["L", 1], "1", ["none"]], ["yield", 4, ["reg", ["L", 1]], ["L", 2], "catch"], ["raise", ["user", 1, 4]]]
+        # G4 (child raising at t=1) is processed before G1 (failed by the producer at t=1): wait in that order
+        catcher = [["yield", 6, ["reg", ["G", 4]], ["L", 2], "catch"], ["yield", 5, ["reg", ["G", 1]], ["L", 1], "catch"]]
+        producer = [["timeout", ["L", 1], "1", ["none"]], ["yield", 7, ["reg", ["L", 1]], ["L", 2], "catch"],
+                    ["succeed", ["G", 0], ["int", v]], ["fail", ["G", 1], ["user", 2, 8]]]
+        setup = [["event", ["G", 0]], ["event", ["G", 1]], ["timeout", ["G", 2], "1", ["int", 7]],
+                 ["spawn", ["G", 3], 1, ["none"]], ["spawn", ["G", 4], 2, ["none"]],
+                 ["spawn", ["G", 5], 3, ["none"]], ["spawn", ["G", 6], 4, ["none"]], ["spawn", ["G", 7], 0, ["none"]],
+                 ["probe", ["G", 7], 1]]
+        plan = [["exec", setup]] + rng.choice([[["run"]], [["run_ev", 7], ["run"]], [["run_num", "2"], ["run"]]])
+        total = reps * len(cycle)
+        return {"t0": t0, "codes": [collector, child_ret, child_raise, catcher, producer], "plan": plan,
+                "long": "streak", "fuel": total + 200, "max_steps": 400}
+    if kind == "chain":
+        depth = n or rng.choice([1500, 1600])
+        wait_first = rng.random() < 0.5          # the next process waits BEFORE its event is triggered
+        link = [["yield", 1, ["reg", ["L", 0]], ["L", 1], "catch"], ["event", ["L", 2]], ["spawn", ["L", 3], 0, ["reg", ["L", 2]]]]
+        if wait_first:
+            link += [["timeout", ["L", 4], "0", ["none"]], ["yield", 2, ["reg", ["L", 4]], ["L", 5], "catch"]]
+        link += [["succeed", ["L", 2], ["reg", ["L", 1]]]]
+        per = 3 if wait_first else 2
+        steps = per * depth + 2
+        plan = [["exec", [["event", ["G", 0]], ["spawn", ["G", 1], 0, ["reg", ["G", 0]]], ["succeed", ["G", 0], ["int", 1]]]],
+                ["step", steps]]
+        return {"t0": t0, "codes": [link], "plan": plan, "long": "chain", "fuel": steps + 100, "max_steps": steps + 100}
+    if kind == "longrun":
+        k = n or 2600
+        d1, d2 = rng.choice([("1", "1"), ("1", "1/2"), ("1/2", "1/4")])
+        tick = lambda d, lbl: [["repeat", k, [["timeout", ["L", 1], d, ["none"]], ["yield", lbl, ["reg", ["L", 1]], ["L", 2], "catch"]]],
+                               ["return", ["int", lbl]]]
+        plan = [["exec", [["spawn", ["G", 0], 0, ["none"]], ["spawn", ["G", 1], 1, ["none"]], ["probe", ["G", 1], 1]]], ["run"]]
+        return {"t0": t0, "codes": [tick(d1, 1), tick(d2, 2)], "plan": plan, "long": "longrun",
+                "fuel": 2 * k + 200, "max_steps": 2 * k + 200}
+    raise ValueError(kind)
+
+
 def gen_case(rng, knobs=None):
     return _Gen(rng, knobs).case()
 
@@ -1258,6 +1508,16 @@ def gen_case(rng, knobs=None):
 
 def shrink(case):
     plan, codes = case["plan"], case["codes"]
+    # long cases first: halve repeat counts and step budgets
+    for ci, code in enumerate(codes):
+        for j, ins in enumerate(code):
+            if ins[0] == "repeat" and ins[1] > 1:
+                for n in sorted({ins[1] // 2, ins[1] - 1, 1}):
+                    if 0 < n < ins[1]:
+                        yield {**case, "codes": codes[:ci] + [code[:j] + [["repeat", n, ins[2]]] + code[j + 1:]] + codes[ci + 1:]}
+    for pi, it in enumerate(plan):
+        if it[0] == "step" and it[1] > 16:
+            yield {**case, "plan": plan[:pi] + [["step", it[1] // 2]] + plan[pi + 1:]}
     # drop a plan item
     for i in range(len(plan) - 1, -1, -1):
         if len(plan) > 1:
